@@ -414,9 +414,9 @@ def mc_pipeline(run, maxreads, tokbuf, liveness=True):
 
 def c11(run):
     run.rule = ("MC: BclPipeline (reader, lexer, parser, caller; rendezvous and buffered channels; done; deferred Close) over every reader script of <= R reads "
-                "(27 read results: no data / data with 0..2 tokens, a syntax error, a lexical failure; nil / EOF / error) under all interleavings with weak fairness per action: "
+                "(39 read results, EOF only as the last one of a script: no data / data with 0..2 tokens, a syntax error, a lexical failure; nil / EOF / error) under all interleavings with weak fairness per action: "
                 "Returns, Quiesces with Close exactly once, lexer exits, <= 2 reads after a lexical failure, read error preferred (R=2 quick, 3 thorough). "
-                "GEN: every script of <= 3 reads with the set of return classes over all schedules (a single class for each: the design is outcome-deterministic; quick runs all scripts of <= 2 reads and a seeded thirtieth of the 3-read ones); the real ParseFile / InterpretFile / UnmarshalFile run on a FileInput playing the "
+                "GEN: every script of <= 3 reads with the set of return classes over all schedules (a single class for each: the design is outcome-deterministic; quick runs all scripts of <= 2 reads and a seeded fifteenth of the 3-read ones); the real ParseFile / InterpretFile / UnmarshalFile run on a FileInput playing the "
                 "script, with and without jitter at the hook points: must return within the watchdog with a class the model allows, Close exactly once at quiescence, "
                 "no goroutine of package bcl left, <= 3 reads after the failure. "
                 "STEERED SCHEDULES: Gen_Sched = BclPipeline with a history of the actions taken; seeded simulated behaviours (scripts of <= 3 reads, token channel of the real capacity) are "
@@ -427,7 +427,7 @@ def c11(run):
                         "a steered goroutine stops only at hook points; between two of them it runs freely (one model token = two real tokens; the parser's receive is seen after it happened)"]
     mc_pipeline(run, 2 if run.quick else 3, 2)
     c = "SPECIFICATION Spec\nCONSTANTS MaxReads = 3  TokBuf = 2  EmptyIsEOF = FALSE\nINVARIANT Emit\nCHECK_DEADLOCK FALSE\n"
-    run.gen_replay("Gen_Pipe", c, ["replay-pipe", "--reps", "6" if run.quick else "12", "--seed", str(run.seed), "--stride", "30" if run.quick else "2"], "C11:scripts", workers=8)
+    run.gen_replay("Gen_Pipe", c, ["replay-pipe", "--reps", "6" if run.quick else "12", "--seed", str(run.seed), "--stride", "15" if run.quick else "2"], "C11:scripts", workers=8)
     tv_pipe(run, "C11:tv", 60 if run.quick else 400, ("CloseAtMostOnce",))
     sched(run, "C11:sched", 6000 if run.quick else 150000, ("CloseAtMostOnce",))
     run.exhaustive = True
